@@ -5,10 +5,12 @@
 (* chunk of every volume with type E, but the number of chunks depends on   *)
 (* the coverage pattern; the poller derives "is there a next chunk in this  *)
 (* volume" from the sequence number alone (sequence < 55), never from the   *)
-(* type letter.  After a short volume's end chunk it therefore keeps        *)
-(* asking for sequence+1 of the same volume, exhausts its retry budget and  *)
-(* returns ExpectedChunkNotFound although the uploader moved on to the next *)
-(* volume long ago.                                                        *)
+(* type letter -- and it also GUESSES the letter of the object it asks for  *)
+(* from the sequence number (I below 55, E at 55).  The end chunk of a      *)
+(* short volume is stored as ...-0NN-E, the poller asks for ...-0NN-I: it   *)
+(* never finds it, exhausts its retry budget and returns                    *)
+(* ExpectedChunkNotFound although the uploader moved on to the next volume  *)
+(* long ago (reproduced on the real code by `vdrive poll record-hazards`).  *)
 (* TLC exhibits this as a counterexample to WaitsOnlyForTheUploader.        *)
 (***************************************************************************)
 EXTENDS Poll
@@ -23,10 +25,17 @@ ShortUpload == /\ uploads < MaxUploads /\ result = "running" /\ pc # "search"
                /\ LET nx == ShortSucc(up) IN vis' = [vis EXCEPT ![nx[1]] = nx[2], ![SuccVol(nx[1])] = 0] /\ up' = nx
                /\ uploads' = uploads + 1
                /\ UNCHANGED <<pc, latestVol, target, att, prev, cons, stop, faults, result, why, hist, histAtStop, window, upAtWait>>
+(* the object asked for exists under the guessed name only below the short volume's end chunk *)
+Findable(t) == Visible(t) /\ (t[2] # ShortLen \/ ShortLen = LastSeq)      \* at LastSeq the guessed letter E is right
+PGetShort(ok) == /\ pc = "get" /\ result = "running"
+                 /\ IF ok THEN Findable(target) /\ pc' = "deliver" /\ UNCHANGED <<att, result, why, faults>>
+                    ELSE /\ ~Findable(target) /\ att' = att + 1 /\ UNCHANGED faults
+                         /\ IF att + 1 = GetBudget THEN Err("budget") ELSE UNCHANGED <<pc, result, why>>
+                 /\ UNCHANGED <<env, latestVol, target, prev, cons, stop, hist, histAtStop, window>>
 ShortNext == \/ ShortUpload
              \/ PNext /\ upAtWait' = up
              \/ (PSearch \/ PListLatest \/ PGetLatest(TRUE) \/ PGetLatest(FALSE) \/ PDeliverLatest \/ PGetMeta(TRUE) \/ PGetMeta(FALSE)
-                 \/ PLoopTop \/ PListNext \/ PGet(TRUE) \/ PGet(FALSE) \/ PDeliver \/ CStop \/ CDrop) /\ UNCHANGED upAtWait
+                 \/ PLoopTop \/ PListNext \/ PGetShort(TRUE) \/ PGetShort(FALSE) \/ PDeliver \/ CStop \/ CDrop) /\ UNCHANGED upAtWait
 ShortSpec == ShortInit /\ [][ShortNext]_shvars
 (* giving up for lack of data is only justified when the uploader produced nothing while the poller waited *)
 WaitsOnlyForTheUploader == (result = "err" /\ why = "budget") => up = upAtWait
